@@ -705,6 +705,24 @@ def run_case(spec, ctx):
                                           ev(root, cast, chk, coords, order, (n,))),
             "forward-reordered")
 
+    # ---- ... and afterwards in a second, different order on the SAME model instance (a model
+    # must not remember how an earlier input was ordered)
+    if k >= 3:
+        cands = [presented[1:] + presented[:1], presented[::-1], order[1:] + order[:1], order[::-1]]
+        second = next((c for c in cands if c != order and c != presented), None)
+        if second is not None:
+            classes.append("second-order")
+            case.relation(
+                "reorder", arch,
+                f"second presentation order {[v[0] for v in second]} after {[v[0] for v in presented]} "
+                f"(declared {[v[0] for v in order]})",
+                # the whole history is replayed on whatever model is handed in (the float64
+                # confirmation uses a fresh copy, which has to see the first order as well)
+                lambda root, cast, chk: (ev(root, cast, chk, coords, presented, (n,)),
+                                         _pair(ev(root, cast, chk, coords, second, (n,)),
+                                               ev(root, cast, chk, coords, order, (n,))))[1],
+                "forward-reordered-again")
+
     # ---- a required variable is missing --------------------------------------------
     miss = spec["missing"]
     mv = int(miss["var"]) % k
